@@ -1,7 +1,10 @@
 package main
 
 import (
+	"bytes"
+	ejson "encoding/json"
 	"encoding/hex"
+	"io"
 	"fmt"
 	"math"
 	"strconv"
@@ -87,7 +90,95 @@ func runJsonEnc(payload string) string {
 	w := &chunkWriter{}
 	enc := json.NewEncoder(w, json.EncodeOptions{Line: line, Indent: indent})
 	class, used := driveSink(enc, ts)
-	return fmt.Sprintf("%s %d %s %s", class, used, hexOrDash(w.buf), chunkLens(w.chunks))
+	res := fmt.Sprintf("%s %d %s %s", class, used, hexOrDash(w.buf), chunkLens(w.chunks))
+	if class == "fin" {
+		// (1) read the text back with the real decoder (followed by a second document that must be left alone)
+		items, _, _, _ := decodeJsonItems(append(append([]byte{}, w.buf...), []byte(" [7]")...), 1)
+		res += " | rt: " + items[0]
+		// (2) independent parser: valid RFC 8259, same value; pretty output differs from compact only in whitespace
+		valid := ejson.Valid(w.buf)
+		same := false
+		if valid {
+			same = sameValueAsTokens(w.buf, ts[:used])
+		}
+		w2 := &chunkWriter{}
+		driveSink(json.NewEncoder(w2, json.EncodeOptions{}), ts)
+		var cb bytes.Buffer
+		wsonly := ejson.Compact(&cb, w.buf) == nil && bytes.Equal(cb.Bytes(), w2.buf)
+		res += fmt.Sprintf(" | ej: valid=%d same=%d wsonly=%d", b2i(valid), b2i(same), b2i(wsonly))
+	}
+	return res
+}
+
+// sameValueAsTokens: does encoding/json read [text] as the value the tokens denote
+// (strings with invalid UTF-8 coerced to U+FFFD per offending byte; numbers compared numerically)?
+func sameValueAsTokens(text []byte, ts []tok.Token) bool {
+	d := ejson.NewDecoder(bytes.NewReader(text))
+	d.UseNumber()
+	for _, t := range ts {
+		et, err := d.Token()
+		if err != nil {
+			return false
+		}
+		switch t.Type {
+		case tok.TMapOpen:
+			if et != ejson.Delim('{') {
+				return false
+			}
+		case tok.TMapClose:
+			if et != ejson.Delim('}') {
+				return false
+			}
+		case tok.TArrOpen:
+			if et != ejson.Delim('[') {
+				return false
+			}
+		case tok.TArrClose:
+			if et != ejson.Delim(']') {
+				return false
+			}
+		case tok.TNull:
+			if et != nil {
+				return false
+			}
+		case tok.TBool:
+			if b, ok := et.(bool); !ok || b != t.Bool {
+				return false
+			}
+		case tok.TString:
+			if s, ok := et.(string); !ok || s != string([]rune(t.Str)) {
+				return false
+			}
+		case tok.TInt:
+			n, ok := et.(ejson.Number)
+			if !ok {
+				return false
+			}
+			if v, err := strconv.ParseInt(string(n), 10, 64); err != nil || v != t.Int {
+				return false
+			}
+		case tok.TUint:
+			n, ok := et.(ejson.Number)
+			if !ok {
+				return false
+			}
+			if v, err := strconv.ParseUint(string(n), 10, 64); err != nil || v != t.Uint {
+				return false
+			}
+		case tok.TFloat64:
+			n, ok := et.(ejson.Number)
+			if !ok {
+				return false
+			}
+			if v, err := strconv.ParseFloat(string(n), 64); err != nil || math.Float64bits(v) != math.Float64bits(t.Float64) {
+				return false
+			}
+		default:
+			return false
+		}
+	}
+	_, err := d.Token()
+	return err == io.EOF
 }
 
 func runPrettyEnc(payload string) string {
